@@ -41,6 +41,9 @@ type c15Scn struct {
 	// StdCtx: a standard-library context (WithCancelCause) instead of SimContext; the simulator
 	// still closes it at the chosen instant, with a cause that differs from ctx.Err()
 	StdCtx bool `json:"std_ctx,omitempty"`
+	// StdFarDeadline (with StdCtx): the context also has a deadline an hour away; it is still
+	// closed by the simulator (cancelled early, as when a parent request is cancelled)
+	StdFarDeadline bool `json:"std_far_deadline,omitempty"`
 }
 
 var c15Progs = map[string]string{
@@ -95,8 +98,14 @@ type c15StdCtx struct {
 	cancel context.CancelCauseFunc
 }
 
-func newC15StdCtx() *c15StdCtx {
-	ctx, cancel := context.WithCancelCause(context.Background())
+func newC15StdCtx(farDeadline bool) *c15StdCtx {
+	parent := context.Background()
+	if farDeadline {
+		// (the timer is released when the cancel function runs; never-cancelled runs leave a
+		// one-hour timer behind, which the process does not outlive)
+		parent, _ = context.WithDeadline(parent, time.Now().Add(time.Hour)) //nolint:govet
+	}
+	ctx, cancel := context.WithCancelCause(parent)
 	return &c15StdCtx{ctx, cancel}
 }
 func (c *c15StdCtx) Cancel(err error) { c.cancel(errors.New("request budget used up")) }
@@ -182,6 +191,7 @@ func (c15Engine) Gen(r *core.Rand, tier string, i int) any {
 	sc.Buffered = r.Chance(1, 3)
 	sc.Warm = r.Chance(1, 5)
 	sc.StdCtx = r.Chance(1, 4)
+	sc.StdFarDeadline = sc.StdCtx && r.Bool()
 	if r.Chance(1, 14) {
 		sc.Arch = core.Pick(r, c15ChildArchs)
 		sc.N = r.Range(2, 8)
@@ -345,7 +355,7 @@ func c15Exec(sc *c15Scn, cancel string, cancelStep, cancelTick int, log *core.Lo
 	if cancel != "plain" {
 		ctx = core.NewSimContext()
 		if sc.StdCtx && !sc.Deadline {
-			ctx = newC15StdCtx()
+			ctx = newC15StdCtx(sc.StdFarDeadline)
 		}
 		st.ctx, st.cancelErr, st.onCancel = ctx, cerr, markCancel
 		if cancel == "script" {
